@@ -84,6 +84,8 @@ def ready_axioms(ex):
         ax(t == cid(c, "Transfer"), z3.Or(trivial_z(c, r), has)),
         ax(t == cid(c, "Materialization"), z3.Or(trivial_z(c, r), has)),
         ax(z3.And(is_marker(c, r), t != cid(c, "Transfer"), t != cid(c, "Materialization")), z3.Or(has, ready(H, mt(r)))),
+        # totality of the definition: 'ready' is only ever asked of relations; for any other reference it is True by convention
+        ax(z3.Not(z3.Or(t == cid(c, "LeafRelation"), t == cid(c, "UnaryOperationRelation"), t == cid(c, "BinaryOperationRelation"), is_marker(c, r))), z3.BoolVal(True)),
     ]
 
 
@@ -92,6 +94,55 @@ wit_ext = z3.Function("wit_extends", HeapSort, HeapSort, smt.Ref)
 
 
 def extends_axioms(ex):
+    H, H2, r = z3.Const("H", HeapSort), z3.Const("H2", HeapSort), z3.Const("r", smt.Ref)
+    return extends_def_axioms(ex) + [
+        # spec lemma: readiness is monotone in the payload heap.  Its induction step is a lemma obligation discharged by z3 on
+        # every run (lemma_ready_monotone below); the induction principle itself (relation trees are finite: every child is
+        # strictly lower, _height_axioms) is the usual meta-step of a recursive lemma with a decreases clause
+        z3.ForAll([H, H2, r], z3.Implies(z3.And(extends(H, H2), ready(H, r)), ready(H2, r)), patterns=[z3.MultiPattern(extends(H, H2), ready(H, r))]),
+    ]
+
+
+def lemma_ready_monotone(ex):
+    """Induction step of 'extends(H, H2) and ready(H, r) imply ready(H2, r)', by cases on the class of r, from the *definitions*
+    of ready and extends only; the induction hypothesis is available for exactly the children the class of r has (each of them
+    strictly lower in the tree)."""
+    class _C:
+        pass
+    c = _C()
+    c.ex = ex
+    H, H2, r = z3.Const("lm_H", HeapSort), z3.Const("lm_H2", HeapSort), z3.Const("lm_r", smt.Ref)
+    t = smt.typ(r)
+    ut, mt = A(c, "UnaryOperationRelation", "target"), A(c, "MarkerRelation", "target")
+    bl, br = A(c, "BinaryOperationRelation", "lhs"), A(c, "BinaryOperationRelation", "rhs")
+    ih = lambda x: z3.Implies(ready(H, x), ready(H2, x))  # noqa: E731
+    hyps = list(ready_axioms(ex)) + list(extends_def_axioms(ex)) + [
+        extends(H, H2),
+        z3.Implies(t == cid(c, "UnaryOperationRelation"), ih(ut(r))),
+        z3.Implies(is_marker(c, r), ih(mt(r))),
+        z3.Implies(t == cid(c, "BinaryOperationRelation"), z3.And(ih(bl(r)), ih(br(r)))),
+    ]
+    return hyps, z3.Implies(ready(H, r), ready(H2, r))
+
+
+def lemma_ready_monotone_descends(ex):
+    """The decreases clause of the recursive lemma: each child the induction hypothesis is used for is strictly lower."""
+    from contracts.iteration import _height_axioms, height
+    class _C:
+        pass
+    c = _C()
+    c.ex = ex
+    r = z3.Const("lm_r", smt.Ref)
+    t = smt.typ(r)
+    ut, mt = A(c, "UnaryOperationRelation", "target"), A(c, "MarkerRelation", "target")
+    bl, br = A(c, "BinaryOperationRelation", "lhs"), A(c, "BinaryOperationRelation", "rhs")
+    goal = z3.And(z3.Implies(t == cid(c, "UnaryOperationRelation"), height(ut(r)) < height(r)),
+                  z3.Implies(is_marker(c, r), height(mt(r)) < height(r)),
+                  z3.Implies(t == cid(c, "BinaryOperationRelation"), z3.And(height(bl(r)) < height(r), height(br(r)) < height(r))))
+    return list(_height_axioms(ex)), goal
+
+
+def extends_def_axioms(ex):
     H, H2, H3 = z3.Const("H", HeapSort), z3.Const("H2", HeapSort), z3.Const("H3", HeapSort)
     o, r = z3.Const("o", smt.Ref), z3.Const("r", smt.Ref)
     w = wit_ext(H, H2)
@@ -101,8 +152,6 @@ def extends_axioms(ex):
         z3.ForAll([H, H2], z3.Implies(z3.Not(extends(H, H2)), z3.And(z3.Select(H, w) != smt.NONE, z3.Select(H2, w) != z3.Select(H, w))), patterns=[extends(H, H2)]),
         z3.ForAll([H], extends(H, H), patterns=[extends(H, H)]),
         z3.ForAll([H, H2, H3], z3.Implies(z3.And(extends(H, H2), extends(H2, H3)), extends(H, H3)), patterns=[z3.MultiPattern(extends(H, H2), extends(H2, H3))]),
-        # spec lemma (induction on the tree): readiness is monotone in the payload heap
-        z3.ForAll([H, H2, r], z3.Implies(z3.And(extends(H, H2), ready(H, r)), ready(H2, r)), patterns=[z3.MultiPattern(extends(H, H2), ready(H, r))]),
     ]
 
 
